@@ -104,7 +104,7 @@ fn plan(prop: &str, tier: &str) -> Plan {
         }
         _ => {}
     }
-    if thorough && matches!(prop, "C01" | "C03" | "C12") {
+    if matches!(prop, "C01" | "C03" | "C12") {
         let tm = three_men();
         let n = family_items("three-men", tm, 0, &mut items);
         fams.push(json!({"family": "three-men", "members": n, "depth": 0, "complete": true}));
